@@ -15,16 +15,21 @@
                                  kind, and each renumbering is a bijection of the region's areas onto
                                  1..n that follows their position in the file
     annotations_record_origin    `Orig. start` / `Orig. end`
-    inside_kept_partial          features between the region's bounds (on one side of the origin) are written
-  Proved under `wfInput` (see `shift_same_bases_partial`):
-    shift_same_bases_partial     every written feature covers exactly the bases of its original
-    extract_reloads_partial      (also `linked`) the numbers written follow the order in which a record
-                                 that loads the file numbers the areas
-  Left to the executable spec on the real output (correspondence): the loaded file shows one region
-  with the same content; `core_location` / leader / tail texts; regions covering a whole circular
-  record; origin-spanning features with several parts on one side of the origin.
+  Proved under input well-formedness (`wfInput`, and `consistent` for the last two):
+    shift_same_bases_partial     every written feature covers exactly the bases of its original — any number
+                                 of exons, regions over the origin and all the way round, features running over
+                                 the origin with any number of exons
+    inside_kept_partial          every feature inside the region is written (origin-spanning ones: one part on
+                                 each side of the origin)
+    extract_reloads_partial      the file is numbered as a record loading it numbers it (1..n per kind, each
+                                 number once, in load order), every reference by number resolves, `core_location`
+                                 texts read back to the bases of the `proto_core` features
+    references_resolve_partial   the written feature a rewritten reference points at is the image of the
+                                 original referent
+  Left to the executable spec on the real output (correspondence): `Record.from_genbank` itself (executed, not
+  modelled) showing one region with the same content; leader/tail texts; that the write does not raise.
 -/
-import ASV.Proofs.RegionExtractOrder
+import ASV.Proofs.RegionExtractFinal
 namespace ASV.C12
 open ASV ASV.RegionExtract
 
@@ -74,28 +79,31 @@ def ShiftSameBases (rd : RegionData) (rec : BioRecord) (w : Written) : Prop :=
   ∀ g ∈ w.extract.features, ∃ f ∈ rec.features, g.tag = f.tag ∧ g.type = f.type ∧
     SameBases rec.length rd f.loc g.loc
 
-/-- Proved under `wfInput rd rec`: the record is not empty, the region lies in it and — if it runs
-    over the origin — does not go all the way round (`end < start`), every feature has non-empty
-    parts inside the record, the exons of a feature not running over the origin do not overlap
-    (total length ≤ hull), and a feature running over the origin has one part on each side of it.
-    Missing: regions covering a whole circular record (`start = end`) and origin-spanning features
-    with several exons on one side; both are covered by the executable `sameBasesB` on the real output. -/
+/-- Proved under `wfInput rd rec`: the record is not empty; the region lies in it (`0 ≤ start < end ≤ L`, or
+    `0 < end ≤ start < L` over the origin, `start = end` being a region all the way round); every feature has
+    non-empty parts inside the record; and, only for a region over the origin, where `offset_location` is at
+    work: a feature running over the origin has one part on each side, or is shorter than the record and
+    `rotOK` (parts of one strand; no three exons in a row each ending where the next starts — there
+    `offset_location` itself drops bases, KF-C12-abutting-exons); any other feature has exons fitting into its
+    hull and is `rotOK`.  Nothing else is assumed: any number of exons, both strands. -/
 theorem shift_same_bases_partial (rd : RegionData) (rec : BioRecord) (w : Written)
     (h : writeToGenbank rd rec = .ok w) (hwf : wfInput rd rec = true) : ShiftSameBases rd rec w :=
   fun g hg => written_sameBases rd rec w h hwf g hg
 
-/-- Nothing inside the region is left out: a feature of the full record that lies between the region's
-    start and end (for a region over the origin: between its start and the record's end, or between the
-    origin and its end) is written.  Missing: features that themselves run over the origin inside a
-    region over the origin (they are gathered by a separate loop; the executable `insideKept` checks
-    them on the real output). -/
+/-- Nothing inside the region is left out: a feature of the full record that lies inside the region
+    (`insideRegion`: all parts between the region's start and end; over the origin: all before it, all after it,
+    or — for a feature that itself runs over the origin — each part on its side) is written.
+    Remaining hypothesis: a feature running over the origin inside a region over the origin has one part on each
+    side of the origin (`twoPart`; with more exons the loop's "does it still cross the origin" test depends on the
+    exon order, left to the executable `insideKept`). -/
 theorem inside_kept_partial (rd : RegionData) (rec : BioRecord) (w : Written)
-    (h : writeToGenbank rd rec = .ok w) (f : BioFeature) (hf : f ∈ rec.features)
-    (hin : (rd.crossesOrigin = false ∧ rd.start ≤ f.loc.start ∧ f.loc.end ≤ rd.end) ∨
-           (rd.crossesOrigin = true ∧ rd.start ≤ f.loc.start ∧ f.loc.end ≤ rec.length) ∨
-           (rd.crossesOrigin = true ∧ 0 ≤ f.loc.start ∧ f.loc.end ≤ rd.end)) :
+    (h : writeToGenbank rd rec = .ok w)
+    (hreg : rd.crossesOrigin = true → 0 < rd.end ∧ rd.start < rec.length)
+    (f : BioFeature) (hf : f ∈ rec.features) (hne : f.loc.parts ≠ [])
+    (hin : insideRegion rec.length rd f.loc = true)
+    (htwo : rd.crossesOrigin = true → bridgesOrigin f.loc = true → twoPart rec.length f.loc = true) :
     ∃ g ∈ w.extract.features, g.tag = f.tag :=
-  written_contains rd rec w h f hf hin
+  written_contains_inside rd rec w h hreg f hf hne hin htwo
 
 /-- Renumbering is consistent: there is one renumbering per kind of area (protoclusters, candidate
     clusters, subregions) such that every written feature's references — the region's candidate and
@@ -119,22 +127,46 @@ theorem renumber_consistent (rd : RegionData) (rec : BioRecord) (w : Written)
 def ExtractReloads (rd : RegionData) (rec : BioRecord) (w : Written) : Prop :=
   selfConsistent rec.length rd w.extract.features = true
 
-/-- Proved part: the numbers written for protoclusters, candidate clusters and subregions are those of
-    the renumbering of `renumber_consistent` (a bijection of the region's areas onto `1..n`), and they
-    follow the order in which a record loading the file numbers these areas (`CDSCollection.__lt__`:
-    by start — an area still running over the origin counting from before it —, larger first): an area
-    that is loaded strictly before another carries the smaller number.
-    Hypotheses: `wfInput` as above, and `linked`: the two views of the region's areas handed to
-    `write_to_genbank` agree (an area feature of the record carries the location its `RegionData`
-    entry of the same number has) and area locations are one forward part or a forward pair over the
-    origin.  Missing for `ExtractReloads`: that each of `1..n` is used by exactly one written feature
-    (one feature per area), the text round trip of `core_location`, the single region feature. -/
+/-- Proved: four of the five parts of `selfConsistent`, the numbering ones exactly as executed —
+    * `numberedAsLoaded` for protoclusters, candidate clusters and subregions: all written features of the kind
+      carry a number, the numbers are `1..n` each exactly once (`n` = how many are written = how many areas the
+      region has), and a feature that a loading record (`CDSCollection.__lt__`) orders strictly before another
+      carries the smaller number;
+    * `refsInRange`: every reference by number (region → candidates, subregions; candidate → protoclusters;
+      core → protocluster) is the number of a feature present in the file;
+    * `CoresAgree`: the `core_location` text of each written protocluster reads back through
+      `location_from_string` (shared `string_roundtrip`) to a location covering exactly the bases of the written
+      `proto_core` feature of the same number.
+    Hypotheses: `wfInput`; `consistent` — the record's features and `RegionData` describe the same areas
+    (number ↦ location, one feature per area and kind, distinct numbers per kind, areas and cores inside the
+    region, one forward part or a forward pair over the origin), features are told apart by `tag`, and a feature
+    running over the origin reaches from the record's first to its last base.
+    Missing for `ExtractReloads`: `oneRegion` (the single region feature spans the file). -/
 theorem extract_reloads_partial (rd : RegionData) (rec : BioRecord) (w : Written)
-    (h : writeToGenbank rd rec = .ok w) (hwf : wfInput rd rec = true) (hlink : linked rd rec = true) :
-    FollowsLoadOrder "protocluster" (·.q.protoNumber) w.extract.features ∧
-    FollowsLoadOrder "cand_cluster" (·.q.candNumber) w.extract.features ∧
-    FollowsLoadOrder "subregion" (·.q.subNumber) w.extract.features :=
-  written_follow_load_order rd rec w h hwf hlink
+    (h : writeToGenbank rd rec = .ok w) (hwf : wfInput rd rec = true) (hcons : consistent rd rec = true) :
+    numberedAsLoaded (·.q.protoNumber) (ofType "protocluster" w.extract.features) = true ∧
+    numberedAsLoaded (·.q.candNumber) (ofType "cand_cluster" w.extract.features) = true ∧
+    numberedAsLoaded (·.q.subNumber) (ofType "subregion" w.extract.features) = true ∧
+    refsInRange w.extract.features = true ∧ CoresAgree w.extract.features :=
+  written_selfconsistent rd rec w h hwf hcons
+
+/-- The written cross references resolve to the images of the original referents: for every area of the region
+    (number `n` in the record, of any of the three kinds) the record's feature of that kind carrying `n` has an
+    image in the file (same `tag`), and this image carries the number `ν n` to which `renumber_consistent`
+    says every reference to `n` was rewritten; by `extract_reloads_partial` no other written feature of the kind
+    carries `ν n`, and `ν n` is the number a loading record gives it.  Same hypotheses. -/
+theorem references_resolve_partial (rd : RegionData) (rec : BioRecord) (w : Written)
+    (h : writeToGenbank rd rec = .ok w) (hwf : wfInput rd rec = true) (hcons : consistent rd rec = true) :
+    (∀ a ∈ protoAreas rd, ∃ f ∈ rec.features, f.type = "protocluster" ∧ f.q.protoNumber = some a.1 ∧ f.loc = a.2 ∧
+      ∃ g ∈ w.extract.features, g.tag = f.tag ∧ g.type = "protocluster" ∧
+        ∃ m, g.q.protoNumber = some m ∧ dictGet (renumbering rd rec.length).protos a.1 = .ok m) ∧
+    (∀ a ∈ candDict rd, ∃ f ∈ rec.features, f.type = "cand_cluster" ∧ f.q.candNumber = some a.1 ∧ f.loc = a.2 ∧
+      ∃ g ∈ w.extract.features, g.tag = f.tag ∧ g.type = "cand_cluster" ∧
+        ∃ m, g.q.candNumber = some m ∧ dictGet (renumbering rd rec.length).cands a.1 = .ok m) ∧
+    (∀ a ∈ subDict rd, ∃ f ∈ rec.features, f.type = "subregion" ∧ f.q.subNumber = some a.1 ∧ f.loc = a.2 ∧
+      ∃ g ∈ w.extract.features, g.tag = f.tag ∧ g.type = "subregion" ∧
+        ∃ m, g.q.subNumber = some m ∧ dictGet (renumbering rd rec.length).subs a.1 = .ok m) :=
+  written_images rd rec w h hwf hcons
 
 /-! ### non-vacuity: a concrete record on which every hypothesis holds and every branch is taken -/
 
@@ -167,7 +199,7 @@ def exCross : RegionData :=
 def exLater : RegionData := { start := 13, «end» := 15, cands := [], subs := [⟨2, .simple ⟨13, 15, .fwd⟩⟩] }
 
 example : wfInput exCross exRec = true ∧ wfInput exLater exRec = true := by decide
-example : linked exCross exRec = true ∧ linked exLater exRec = true := by decide
+example : consistent exCross exRec = true ∧ consistent exLater exRec = true := by decide
 /-- on the example the numbering part of the full statement holds too -/
 example : (writeToGenbank exCross exRec).toOption.map (fun w =>
       numberedAsLoaded (·.q.protoNumber) (ofType "protocluster" w.extract.features) &&
